@@ -80,6 +80,26 @@ Definition span (ivs : list interval) : interval :=
   | iv :: rest => (fst iv, last_upper (snd iv) rest)
   end.
 
+(* trillian/integration NotAfterForLog: the NotAfter that certificates submitted to a log with window
+   iv are given.  Hand-written after the Go function, branch for branch: no bound -> a day from now;
+   start only -> a day after the start; both -> the start plus half of limit.Sub(start) (time.Time.Sub
+   saturates at the ends of the Duration range; Go's integer division truncates towards zero);
+   limit only -> an hour before the limit. *)
+Definition hour_ns : Z := 3600000000000.
+Definition day_ns : Z := 24 * hour_ns.
+Definition sub_sat (a b : Z) : Z := Z.max min_i64 (Z.min max_i64 (a - b)).
+Definition not_after_for_log (now : Z) (iv : interval) : Z :=
+  match iv with
+  | (None, None) => now + day_ns
+  | (Some s, None) => s + day_ns
+  | (Some s, Some l) => s + Z.quot (sub_sat l s) 2
+  | (None, Some l) => l - hour_ns
+  end.
+
+(* a window that holds at least one instant *)
+Definition nonempty (iv : interval) : Prop :=
+  forall s l, fst iv = Some s -> snd iv = Some l -> s < l.
+
 (* ---- correspondence-case runners (evaluated by vm_compute on harness cases) ---- *)
 Definition run_point (t : Z) (iv : interval) : bool * bool :=
   (ctfe_admits t iv, client_selects t iv).
